@@ -364,6 +364,10 @@ Definition spec_ok (u : unit_t) (ib : list f64) (ups : list (list Z * f64)) (o :
    the same slice returns the same boundaries.  Required whenever the code did not panic. *)
 Definition purity_ok (unchanged same : bool) : bool := unchanged && same.
 
+(* a histogram of runtime shape, registered with a pedantic registry, is gathered without error
+   ([gathered] is observed by the harness on the real registry; nothing is required outside the precondition) *)
+Definition gather_ok (pre gathered : bool) : bool := negb pre || gathered.
+
 (* rules: the last matching rule decides; no matching rule means denied *)
 Definition rule_spec (rules : list (bool * bool)) : bool :=
   match find (fun r => fst r) (rev rules) with
